@@ -58,7 +58,7 @@ def check_bm_long(ctx, k, opaque=False):
     else:
         hist = ctx.sym("hist", 32)
         which = ctx.sym("which", 32)
-        ctx.assume(z3.ULE(hist, 3), z3.ULE(which, 2))
+        ctx.assume(z3.ULE(hist, 5), z3.ULE(which, 2))
         paths = ctx.run(k, [b0, b1, hist, which, x])
     nb = 0
     for q in paths:
@@ -116,6 +116,26 @@ def check_bm_ptr(ctx):
         ctx.require(q, z3.Implies(valid, z3.And(bv(body[0][1]) == 10, bv(body[0][2]) == bv(addr[0][1]), bv(body[0][3]) == want_arg,
                                                 bv(g[0][1]) == z3.If(e == 0, BV(0, 64), zext(z3.Extract(31, 0, e - b0), 64)), q.ret == e)),
                     "pointer argument and result are translated relative to the executing sandbox; null stays null")
+    ctx.only(paths, "ret")
+    ctx.expect(paths, ret=1)
+
+
+def check_bm_fnptr(ctx):
+    ctx.eng.max_strlen = 64
+    b0, b1 = bm_bases(ctx)
+    x = ctx.sym("x", 32)
+    paths = ctx.run("k_bm_cb_fnptr", [b0, b1, x])
+    for q in paths:
+        if q.status != "ret":
+            continue
+        body = logs(q, 20)
+        addr = logs(q, 24)
+        g = logs(q, 23)
+        if len(body) != 1 or len(g) != 1:
+            ctx.fail(q, "the callback body ran %d times" % len(body))
+            continue
+        ctx.require(q, z3.And(bv(body[0][1]) == 13, bv(body[0][2]) == bv(addr[0][1]), bv(body[0][3]) == sext(x, 64), bv(g[0][1]) == 0x140, q.ret == 0x140),
+                    "a function-pointer result is converted to the backend's function representation (the table handle), not translated like a data pointer")
     ctx.only(paths, "ret")
     ctx.expect(paths, ret=1)
 
@@ -182,6 +202,7 @@ def jobs(tier, seed):
     out = [Job("C12_bm_long", src, [dict(name="BM long(long) callbacks", fn=check_bm_long, kw=dict(k="k_bm_cb_long"), unwind=200)]),
            Job("C12_bm_opaque", src, [dict(name="BM opaque callback", fn=check_bm_long, kw=dict(k="k_bm_cb_opaque", opaque=True), unwind=200)], native=False),
            Job("C12_bm_ptr", src, [dict(name="BM pointer callback", fn=check_bm_ptr, unwind=200)], native=False),
+           Job("C12_bm_fnptr", src, [dict(name="BM function-pointer result", fn=check_bm_fnptr, unwind=200)], native=False),
            Job("C12_bm_void", src, [dict(name="BM void callback", fn=check_bm_void, unwind=200)], native=False)]
     out.append(Job("C12_noop_nested", NOOP + '#include "C12_nested.inc"\n', [dict(name="noop nested call trees", fn=check_nested, unwind=400)]))
     out.append(Job("C12_noop_etls_nested", NOOP_ETLS + '#include "C12_nested.inc"\nRLBOX_NOOP_SANDBOX_STATIC_VARIABLES();\n',
